@@ -949,6 +949,26 @@ static void wRegexAll(int idx, int iter, const Shared& sh, Digest& d, Rng& r) {
                                          u"\u00C9\u00E9\u01C5\u02B0", u"\u20AC\u00A3\u2211\u00A9", u"\u2028\u00A0", u"", u"\u0660\u2160\u00BD", u"(-)[_]\u00AB\u00BB"};
     d.ops++;
     const size_t nk = sh.rangeKeys.size();
+    if (iter == 0) {
+        // first-use pass: right after the barrier every thread touches EVERY shared token once (positive and, where it
+        // exists, complement), all in the same cyclic order, four start offsets: whatever a token builds lazily on its
+        // first match is built by several threads at once
+        std::basic_string<XMLCh> subj = W(u"aZ0 $\u03B1\u0416\u20AC\u2028_-");
+        std::string acc;
+        for (size_t n = 0; n < nk; n++) {
+            size_t ki = (n + (size_t)(idx % 4) * (nk / 4)) % nk;
+            for (int neg = 0; neg < 2; neg++) {
+                if (neg && !(sh.keyFlags[ki] & 1) && !(sh.mask & 0x1000u)) continue;
+                std::string pat = std::string(neg ? "\\P{" : "\\p{") + sh.rangeKeys[ki] + "}";
+                try {
+                    RegularExpression re(X(pat).c_str());
+                    Match m;
+                    acc += re.matches(subj.c_str(), &m) ? (char)('a' + m.getStartPos(0) % 26) : '-';
+                } catch (const XMLException&) { acc += '!'; }
+            }
+        }
+        d.add(acc);
+    }
     for (int it = 0; it < 14; it++) {
         std::string pat;
         // thread idx starts at a different key, so that a process covers the key list quickly and every thread's very
